@@ -25,3 +25,25 @@ contract("C06.value_handler",
          bounded={"value_str": 'choice:["Label/#", "(Label/#, Item/#)", "Red", ""]', "x": 'choice:["3", "n/a", "a#b", ""]'},
          assume=["str.replace is uninterpreted with three sound facts (no occurrence -> unchanged; single-char pattern absent "
                  "from the replacement -> absent from the result; pattern present -> replacement present)"])
+
+# C06 "a column referenced in curly braces is spliced ... gives the same answer every time": after reset_column_mapper(s) the sidecar
+# consulted for curly-brace references (self._sidecar) IS the sidecar the new transformers were built from
+from pyvc.contract import class_model as _cm
+_cm("SidecarM", {})
+_cm("ColumnMapper", {"built_from": "Opt[SidecarM]"})
+_cm("TabularInputM", {"_sidecar": "Opt[SidecarM]", "_mapper": "Opt[ColumnMapper]", "HED_COLUMN_NAME": "Str"})
+contract("C06.column_mapper_init", file="hed/models/column_mapper.py", func="ColumnMapper.__init__",
+         params={"self": "ColumnMapper", "sidecar": "Opt[SidecarM]", "tag_columns": "Opaque", "column_prefix_dictionary": "Opaque",
+                 "optional_tag_columns": "Opaque", "warn_on_missing_column": "Opaque"}, returns=None, enc="native", trusted=True,
+         modifies=["self.built_from"], ensures={"view": "self.built_from is sidecar or (self.built_from is None and sidecar is None)"},
+         assume=["ColumnMapper(sidecar=s) builds its transformers from s (view built_from); its body is not verified here"])
+contract("C06.reset_mapper", file="hed/models/base_input.py", func="BaseInput.reset_mapper",
+         params={"self": "TabularInputM", "new_mapper": "ColumnMapper"}, returns=None, enc="native", trusted=True, self_class="TabularInputM",
+         modifies=["self._mapper"], ensures={"set": "self._mapper is new_mapper"})
+contract("C06.reset_column_mapper", file="hed/models/tabular_input.py", func="TabularInput.reset_column_mapper",
+         params={"self": "TabularInputM", "sidecar": "Opt[SidecarM]"}, returns=None, enc="native", self_class="TabularInputM",
+         modifies=["self._sidecar", "self._mapper"],
+         ensures={"C06.reset.references_and_transformers_use_the_same_sidecar":
+                  "self._mapper is not None and ((sidecar is None and self._sidecar is None and self._mapper.built_from is None)"
+                  " or (sidecar is not None and self._sidecar is sidecar and self._mapper.built_from is sidecar))"},
+         assume=["only the Sidecar-object (or None) form of the argument is covered"])
